@@ -95,6 +95,10 @@ impl<'a> Chooser<'a> {
         self.pos += 1;
         v
     }
+    /// the whole underlying stream (stored in replay files of generator-defined cases)
+    pub fn raw(&self) -> &'a [u32] {
+        self.data
+    }
     pub fn exhausted(&self) -> bool {
         self.pos >= self.data.len()
     }
